@@ -276,6 +276,7 @@ class Emitter:
             mods.append(mod)
         self.emit_tables()
         emit_obligations(self, counts)
+        self.n_twins = emit_twins(self)
         # aggregate
         lines = ['-- GENERATED by emit_lean.py -- do not edit.']
         lines += ['import PhQVerif.Generated.%s' % m for m in mods]
@@ -363,6 +364,8 @@ class Emitter:
 OBLIGATIONS = [
     ('C03dim', 'Q', 'Chk.C03dim', 'quantityEntries'),
     ('C03op', 'Q', 'Chk.C03op', 'quantityEntries'),
+    ('C04arith', 'Q', 'Chk.C04arith', 'quantityEntries'),
+    ('C04std', 'Q', 'Chk.C04std', 'quantityEntries'),
 ]
 NCHUNKS = 16
 
@@ -399,6 +402,94 @@ def emit_obligations(em, counts):
         L.append('  exact ' + nest(['%s.%s' % (name, m) for m in sel]))
         L += ['', 'end PhQVerif.Generated.Obl']
         em.write('Obl_%s.lean' % name, '\n'.join(L) + '\n')
+
+
+def emit_list_with_obligation(em, modname, elem_type, rows, imports, checker, oblname, chunk=150):
+    """A generated list `modname.rows` (chunked) together with the obligation that `checker` holds of
+    every row, discharged chunk by chunk by kernel evaluation."""
+    chunks = [rows[k:k + chunk] for k in range(0, len(rows), chunk)] or [[]]
+    L = ['-- GENERATED by emit_lean.py -- do not edit.'] + ['import %s' % i for i in imports]
+    L += ['set_option maxRecDepth 100000', 'namespace PhQVerif.Generated', '']
+    for ci, ch in enumerate(chunks):
+        L.append('def %s.rows_%d : List (%s) := [\n  %s]' % (modname, ci, elem_type, ',\n  '.join(ch)))
+    L.append('def %s.rows : List (%s) :=\n  %s' % (
+        modname, elem_type, ' ++ '.join('%s.rows_%d' % (modname, ci) for ci in range(len(chunks)))))
+    L.append('end PhQVerif.Generated')
+    em.write('%s.lean' % modname, '\n'.join(L) + '\n')
+    L = ['-- GENERATED by emit_lean.py -- obligations discharged by kernel evaluation.',
+         'import PhQVerif.Checkers', 'import PhQVerif.Generated.%s' % modname,
+         'set_option maxRecDepth 100000', 'namespace PhQVerif.Generated.Obl', '']
+    for ci in range(len(chunks)):
+        L.append('theorem %s.c%d : %s.rows_%d.all %s = true := by decide +kernel' % (
+            oblname, ci, modname, ci, checker))
+    L.append('theorem %s : %s.rows.all %s = true := by' % (oblname, modname, checker))
+    L.append('  unfold %s.rows' % modname)
+    L.append('  exact ' + nest(['%s.c%d' % (oblname, ci) for ci in range(len(chunks))]))
+    L += ['', 'end PhQVerif.Generated.Obl']
+    em.write('Obl_%s.lean' % oblname, '\n'.join(L) + '\n')
+
+
+def emit_twins(em):
+    """Constructor / operator twins, derived from signatures: C(A, B) and `A op B -> C`."""
+    ops = {}
+    for e in em.model:
+        m = e['meta']
+        if m['kind'] in ('method', 'free') and m.get('name') in ('operator*', 'operator/') \
+                and not m.get('ufmt') and not m.get('unit'):
+            args = list(m['args'])
+            if m.get('self'):
+                args = [m['cls']] + args
+            if len(args) == 2:
+                ops.setdefault((args[0], args[1], m.get('ret')), []).append(e)
+    rows = []
+    mods = set()
+    for e in em.model:
+        m = e['meta']
+        if m['kind'] != 'ctor' or m.get('unit') or m.get('ufmt') or len(m['args']) != 2:
+            continue
+        a, b = m['args']
+        for (key, swapped) in (((a, b, m['cls']), False), ((b, a, m['cls']), True)):
+            if swapped and a == b:
+                continue
+            for o in ops.get(key, []):
+                for fmt in (32, 64, 80):
+                    if str(fmt) in e['instances'][0]['fmts'] and str(fmt) in o['instances'][0]['fmts']:
+                        rows.append('(f%d.%s, f%d.%s, %s)' % (fmt, ident(e['id']), fmt, ident(o['id']),
+                                                             'true' if swapped else 'false'))
+                        mods.add('Q_' + m['cls'])
+                        mods.add('Q_' + o['meta']['cls'])
+    imports = ['PhQVerif.Core.Model'] + ['PhQVerif.Generated.%s' % x for x in sorted(mods)]
+    emit_list_with_obligation(em, 'Twins', 'Entry × Entry × Bool', rows, imports, 'Chk.C04twin', 'C04twin')
+    # compound assignment / pure operator pairs: `a op= b` and `a op b` of the same class and operand
+    pure = {}
+    for e in em.model:
+        m = e['meta']
+        if m['kind'] == 'method' and m.get('name') in ('operator+', 'operator-', 'operator*', 'operator/') \
+                and not m.get('unit') and m.get('ret') == m['cls']:
+            pure[(m['cls'], m['name'], tuple(m['args']), m.get('ufmt'))] = e
+    rows2, mods2 = [], set()
+    for e in em.model:
+        m = e['meta']
+        if m.get('name') in ('operator+=', 'operator-=', 'operator*=', 'operator/=') and not m.get('unit'):
+            o = pure.get((m['cls'], m['name'][:-1], tuple(m['args']), m.get('ufmt')))
+            if o is None:
+                # tensors: `v * number` is a free function template
+                for cand in em.model:
+                    cm = cand['meta']
+                    if cm['kind'] == 'free' and cm.get('name') == m['name'][:-1] and \
+                            cm['args'] == [m['cls']] + list(m['args']) and cm.get('ufmt') == m.get('ufmt'):
+                        o = cand
+                        break
+            if o is None:
+                continue
+            for fmt in (32, 64, 80):
+                if str(fmt) in e['instances'][0]['fmts'] and str(fmt) in o['instances'][0]['fmts']:
+                    rows2.append('(f%d.%s, f%d.%s, false)' % (fmt, ident(e['id']), fmt, ident(o['id'])))
+                    mods2.add('Q_' + m['cls'])
+    imports = ['PhQVerif.Core.Model'] + ['PhQVerif.Generated.%s' % x for x in sorted(mods2)]
+    emit_list_with_obligation(em, 'Compound', 'Entry × Entry × Bool', rows2, imports, 'Chk.C04compound',
+                              'C04compound')
+    return len(rows)
 
 
 def nest(names):
